@@ -18,7 +18,7 @@ REQUIRED_THEOREMS = ['OpusProps.C15.' + t for t in (
     'arch_range', 'arch_decision', 'dispatch_shape', 'dispatch_safe', 'float_kernels_fixed_below_avx2', 'vqWMatEC_sse_eq_c',
     'lanes_eq_seq_inner_prod', 'lanes_eq_seq_dual_inner_prod', 'lanes_eq_seq_xcorr_kernel',
     'lanes_eq_seq_pitch_xcorr', 'lanes_eq_seq_comb_filter', 'lanes_eq_seq_inner_product_flp',
-    'nsq_scale_states_sse_eq_c', 'vad_energy_sse_eq_c', 'sar_round_smulww_avx2_eq_c')]
+    'nsq_scale_states_sse_eq_c', 'vad_energy_sse_eq_c', 'sar_round_smulww_avx2_eq_c', 'pvq_search_relational')]
 UNPROVED = [
     'nsq_del_dec_simd_eq_c: silk_NSQ_del_dec_sse4_1 / silk_NSQ_del_dec_avx2 return the same silk_nsq_state, indices and pulses as '
     'silk_NSQ_del_dec_c for every state the encoder can hand over (about 2000 lines of intrinsics; only silk_sar_round_smulww has a '
@@ -28,8 +28,11 @@ UNPROVED = [
     'not a theorem.',
     'vad_simd_eq_c: silk_VAD_GetSA_Q8_sse4_1 = silk_VAD_GetSA_Q8_c as whole functions (the only part that differs, the sub-frame '
     'energy loop, is proved equal; that the remaining text is identical is a fact of the source; S4 compares the whole functions).',
-    'pvq_search_sse2: op_pvq_search_sse2 returns a valid pulse vector of the same quality as op_pvq_search_c (no Lean model; S4 checks '
-    'pulse count, signs, returned energy and a calibrated score margin).',
+    'pvq_contracts: the two contracts under which pvq_search_relational is proved are properties of float code and are not proved: '
+    '(1) the pre-search never allocates more than K pulses (C: floor((K+0.8)/sum * X[j]); SSE2: cvttps of an _mm_rcp_ps-scaled '
+    'vector), (2) the arg-max never selects one of the three padding lanes (X = -100, y = 100). Their consequence (K pulses, signs, '
+    'yy) is what S4 checks on the compiled kernels; the quality of the SSE2 choices (rsqrt approximation) is checked against a '
+    'calibrated margin only.',
     'float_error_bound: |SIMD - C| <= 2*gamma_n*sum|x_i*y_i| in IEEE binary32/64 arithmetic for the reduction kernels. The Lean '
     'theorems are over an arbitrary commutative semiring (equal as real numbers, hence differing by reassociation only); the '
     'rounding-error bound itself is the textbook a-priori bound, used as the S4 oracle, not formalised.',
@@ -73,7 +76,9 @@ ASSUMPTIONS = ['x86-64 float build with OPUS_HAVE_RTCD, SSE/SSE2 presumed, SSE4.
                'the exact-domain differential presupposes IEEE binary32/binary64 arithmetic with round-to-nearest and no '
                'flush-to-zero surprises on integers below 2^24 / 2^53 (every operation is then exact)',
                'two\'s-complement wrap of 32-bit signed arithmetic in silk_MLA etc. as implemented by gcc (the model wraps explicitly)']
-TRUSTED = ['the 0x49/0x9e/0x4e/0x99/0x55 shuffle immediates, the mask table of xcorr_kernel_avx and the loop bounds are hand-transcribed '
+TRUSTED = ['the integer bookkeeping of op_pvq_search_c/_sse2 (OpusModel/KernelsPvq.lean) is hand-transcribed and has no correspondence '
+           'run of its own beyond the S4 check of its conclusion on the compiled kernels',
+           'the 0x49/0x9e/0x4e/0x99/0x55 shuffle immediates, the mask table of xcorr_kernel_avx and the loop bounds are hand-transcribed '
            'from the intrinsics into OpusModel/Kernels.lean; a transcription error shows up in the exact-domain differential',
            'Intel intrinsics semantics as modelled (one small Lean definition per intrinsic)']
 
